@@ -190,7 +190,7 @@ def run_api(shard, mon, S):
             if not o.ok and not judge.is_lib_exc(o.exc):
                 mon.viol(f"escape:api:{o.exc_name}", w, "library error", o.brief())
                 continue
-            if not o.ok and o.exc_name not in ("InvalidBBANChecksum",):
+            if not o.ok and not o.is_a("InvalidBBANChecksum"):
                 mon.viol(f"api_failure_class:{o.exc_name}", w, "InvalidBBANChecksum", o.brief())
             if o.ok:
                 bank = o.value.bank
